@@ -13,32 +13,29 @@ from .core import MachineryFailure, WORK
 C16 = WORK / 'c16'
 
 # which mechanism an invariant is about (for the signature of a violation)
-MECH = {'OneStudyPerName': 'goc', 'CountersExact': 'setup', 'FeedbackAtMostOnce': 'done',
-        'CompletedAtMostOnce': 'done'}
+MECH = {'SingleCreator': 'goc', 'OneStudyPerName': 'goc', 'SetupAtomic': 'setup', 'CountersExact': 'setup',
+        'SingleCompleter': 'done', 'FeedbackAtMostOnce': 'done', 'CompletedAtMostOnce': 'done'}
 
 
 # ------------------------------------------------------------------------------ variant of the tree
 def detect_variant() -> Dict[str, bool]:
   """Runs one worker alone and reads off its events whether the three check-then-act mechanisms are
   coded without a lock (True = as at the pinned commit).  Also the hook self-test."""
-  cfg = sampling.RunConfig(nw=1, groups=[1], n=1, ops=['done'], evo=True, policy='rr', seed=0)
+  cfg = sampling.RunConfig(nw=1, groups=[1], n=2, ops=['done'], evo=True, policy='rr', seed=0)
   r = sampling.run_scheduled(cfg)
   names = [e['e'] for e in r.events]
-  need = ['goc_test', 'goc_store', 'setup_test', 'alg_setup_begin', 'alg_setup', 'next_active', 'next_lookup', 'next_status',
-          'want_study', 'acquire_study', 'check_max', 'want_alg', 'acquire_alg', 'propose', 'alloc',
-          'append_trial', 'release_study', 'sample_reward', 'evo_fitness', 'user_op', 'add_measurement', 'done_test', 'done_set',
-          'evo_population', 'release_alg', 'alg_feedback', 'fed', 'complete_counts', 'best_read', 'complete',
-          'finish']
-  missing = [n for n in need if n not in names]
-  if r.status != 'done' or missing:
-    raise MachineryFailure(f'hook self-test failed: status={r.status} crash={r.crash} missing events={missing}')
+  # only what the detection itself needs: anything else that is missing or wrong is judged by TLC later
+  missing = [n for n in ('goc_test', 'setup_test', 'finish') if n not in names]
+  if missing:
+    raise MachineryFailure(f'hook self-test failed: status={r.status} crash={r.crash} missing events={missing} '
+                           f'(is C16-hooks.patch applied completely?)')
   reg = {e['sec'] for e in r.events if e['e'] == 'acquire_reg'}
   mark = any(e['e'] == 'acquire_study' and e['sec'] == 3 for e in r.events)
   return {'goc': 1 not in reg, 'setup': 2 not in reg, 'done': not mark}
 
 
-def variant_env(v: Dict[str, bool]) -> Dict[str, str]:
-  return {'C16_MIRROR_GOC': '1' if v['goc'] else '0', 'C16_MIRROR_SETUP': '1' if v['setup'] else '0',
+def variant_env(v: Dict[str, bool], commit_points: bool = True) -> Dict[str, str]:
+  return {'C16_COMMIT_POINTS': '1' if commit_points else '0', 'C16_MIRROR_GOC': '1' if v['goc'] else '0', 'C16_MIRROR_SETUP': '1' if v['setup'] else '0',
           'C16_MIRROR_DONE': '1' if v['done'] else '0'}
 
 
@@ -57,16 +54,14 @@ def trace_of(r: 'sampling.RunResult') -> dict:
 
 
 def validate(chk, runs: Sequence['sampling.RunResult'], variant: Dict[str, bool], tag: str,
-             mutate=None) -> Dict[str, tuple]:
+             extra: Sequence[dict] = (), commit_points: bool = True) -> Dict[str, tuple]:
   """One TLC run of SamplingTrace.tla over all recorded executions; returns name -> verdict:
   ('ACCEPT', n) | ('INV', clause, k) | ('STOPPED', k, pcs)."""
-  traces = [trace_of(r) for r in runs]
-  if mutate is not None:
-    traces = mutate(traces)
+  traces = [trace_of(r) for r in runs] + [{k: v for k, v in t.items() if k != 'expect'} for t in extra]
   if not traces:
     return {}
   r = tlc.check_with_json('SamplingTrace', 'C16_trace.cfg', traces, ndjson=True, var='TRACE_FILE',
-                          env=variant_env(variant), workers=1, name=f'c16-trace-{tag}', timeout=1500)
+                          env=variant_env(variant, commit_points), workers=1, name=f'c16-trace-{tag}', timeout=1500)
   chk.add_tlc(r)
   if not r.ok:
     raise MachineryFailure(f'SamplingTrace.tla: TLC reported {r.violated}:\n{r.out[-2500:]}')
@@ -101,6 +96,22 @@ def shape(r: 'sampling.RunResult') -> tuple:
           tuple(f.get('ids', ())), tuple(f.get('inf', ())), f.get('best'))
 
 
+def report(chk, sig: dict, detail: dict, keep: int = 3):
+  """chk.violation, but at most `keep` unlisted violations per signature are stored (core keeps 50 in all)."""
+  if chk.match_known(sig) is None:
+    seen = chk.__dict__.setdefault('_c16_seen', {})
+    key = json.dumps(sig, sort_keys=True)
+    seen[key] = seen.get(key, 0) + 1
+    if seen[key] > keep:
+      chk.count('violations_same_signature_not_stored')
+      return
+  chk.violation(sig, detail)
+
+
+def compact(ev: dict) -> dict:
+  return {k: v for k, v in ev.items() if k in ('w', 'e') or v not in (0, '', None)}
+
+
 def judge(chk, runs, verdicts, variant, origin: str):
   """Turns TLC's verdicts into check results."""
   for r in runs:
@@ -116,26 +127,390 @@ def judge(chk, runs, verdicts, variant, origin: str):
       if r.status == 'done':
         chk.count('final_states_compared')
       continue
-    detail = {'origin': origin, 'run': r.name, 'config': dataclass_dict(r.cfg), 'status': r.status,
+    detail = {'origin': origin, 'run': r.name, 'meta': r.meta, 'config': dataclass_dict(r.cfg), 'status': r.status,
               'scheduler': r.violation, 'crash': r.crash, 'stats': r.stats}
     if v[0] == 'INV':
       clause, k = v[1], v[2]
       mech = MECH.get(clause)
       sig = {'kind': 'invariant', 'clause': clause,
              'as_coded': bool(variant.get(mech)) if mech else None}
-      detail.update(at_event=k, event=tr['ev'][k - 1] if 0 < k <= len(tr['ev']) else None,
-                    trace_tail=tr['ev'][max(0, k - 12):k], final=r.final)
+      detail.update(at_event=k, event=compact(tr['ev'][k - 1]) if 0 < k <= len(tr['ev']) else None,
+                    trace_tail=[compact(e) for e in tr['ev'][max(0, k - 12):k]], final=r.final)
     else:
       k, pcs = v[1], v[2]
       ev = tr['ev'][k] if k < len(tr['ev']) else {'e': 'end-of-trace', 'w': 0}
       w = ev.get('w', 0)
       sig = {'kind': 'reject', 'event': ev['e'], 'pc': pcs[w - 1] if 0 < w <= len(pcs) else 'none'}
-      detail.update(matched=k, unmatched_event=ev, pcs=pcs, trace_tail=tr['ev'][max(0, k - 12):k + 1],
-                    final=r.final)
-    detail['trace'] = tr if len(tr['ev']) <= 400 else None
-    chk.violation(sig, detail)
+      detail.update(matched=k, unmatched_event=compact(ev), pcs=pcs,
+                    trace_tail=[compact(e) for e in tr['ev'][max(0, k - 12):k + 1]], final=r.final)
+    detail['trace'] = {'id': tr['id'], 'cf': tr['cf'], 'ev': [compact(e) for e in tr['ev'][:600]]}
+    report(chk, sig, detail)
 
 
 def dataclass_dict(cfg) -> dict:
   import dataclasses  # pylint: disable=import-outside-toplevel
   return dataclasses.asdict(cfg)
+
+
+# ------------------------------------------------------------------------------ design level
+ALL_INVARIANTS = ('SingleCreator SetupAtomic SingleCompleter OneStudyPerName IdsUnique IdsDense AtMostN '
+                  'OneGroupPerTrial FeedbackAtMostOnce CompletedAtMostOnce CountersExact InfeasibleNeverBest '
+                  'SameGroupSamePending CountsConsistent NoDeadlock AtQuiescence')
+COMMIT_POINTS = ('SingleCreator', 'SetupAtomic', 'SingleCompleter')
+
+
+def gen_cfg(name: str, *, workers: int, configs: str, variant: Dict[str, bool], invariants: str = '',
+            constraints: str = '', spec: str = 'Spec', properties: str = '') -> str:
+  """Writes a TLC configuration for MCSampling.tla under .work/c16 and returns its absolute path."""
+  C16.mkdir(parents=True, exist_ok=True)
+  b = lambda x: 'TRUE' if x else 'FALSE'
+  txt = (f'SPECIFICATION {spec}\nCONSTANTS\n  Workers = {{{", ".join(str(i) for i in range(1, workers + 1))}}}\n'
+         f'  Configs <- {configs}\n  MirrorGoc = {b(variant["goc"])}\n  MirrorSetup = {b(variant["setup"])}\n'
+         f'  MirrorDone = {b(variant["done"])}\n  LockCreate = TRUE\n  LockComplete = TRUE\n  LockAlg = TRUE\n'
+         f'  NULL = NULL\n')
+  if invariants:
+    txt += f'INVARIANTS {invariants}\n'
+  if constraints:
+    txt += f'CONSTRAINTS {constraints}\n'
+  if properties:
+    txt += f'PROPERTIES {properties}\n'
+  p = C16 / f'{name}.cfg'
+  p.write_text(txt)
+  return str(p)
+
+
+def steps_of(behaviour) -> List[tuple]:
+  """tlc.Step list (or parsed error trace) -> [(action, worker, state_before, state_after)]."""
+  out = []
+  for i in range(1, len(behaviour)):
+    b = behaviour[i]
+    if isinstance(b, dict):
+      action, args, st, prev = b['action'], b['args'], b['state'], behaviour[i - 1]['state']
+      w = int(str(args).strip('()')) if args else 0
+    else:
+      action, st, prev = b.action, b.state, behaviour[i - 1].state
+      w = int(b.args[0]) if b.args else 0
+    out.append((action, w, prev, st))
+  return out
+
+
+def run_config_of(cf: dict, seed: int) -> 'sampling.RunConfig':
+  groups = list(cf['groups'])
+  return sampling.RunConfig(nw=int(cf['nw']), groups=groups, n=int(cf['n']), ops=sorted(cf['ops']),
+                            evo=bool(cf['evo']), serial_start=bool(cf['warm']), mode='hook',
+                            policy='forced', seed=seed)
+
+
+# ------------------------------------------------------------------------------ orchestration
+INTENDED = {'goc': False, 'setup': False, 'done': False}
+ALL_EVENTS = sorted({e for v in sampling.EVENT_OF.values() for e in v} - {'acquire_reg', 'release_reg'})
+
+
+def design_jobs(tier: str):
+  """(label, cfg, expectation, workers, timeout): expectation = None (must hold) or the invariant that
+  TLC must report violated (documented counter-examples of the as-coded design, calibration mutants)."""
+  big = tlc.DEFAULT_WORKERS
+  jobs = [
+      ('intended-2w', 'C16_quick.cfg', None, max(2, big // 2), 600),
+      ('liveness', 'C16_live.cfg', None, 2, 600),
+      ('as-coded get-or-create', 'C16_race_goc.cfg', 'OneStudyPerName', 1, 300),
+      ('as-coded algorithm set-up', 'C16_race_setup.cfg', 'CountersExact', 1, 300),
+      ('as-coded done()/skip()', 'C16_race_done.cfg', 'FeedbackAtMostOnce', 1, 300),
+      ('no lock in create_trial', 'C16_mut_nolock_create.cfg', 'IdsUnique', 1, 300),
+      ('no lock in _complete_trial', 'C16_mut_nolock_complete.cfg', 'AtQuiescence', 1, 300),
+      ('strong same-pending reading', 'C16_doc_onepending.cfg', 'OnePendingPerGroup', 1, 300),
+  ]
+  if tier == 'thorough':
+    jobs += [
+        ('intended-2w-n3', 'C16_two_n3.cfg', None, big, 1500),
+        ('intended-3w-cold', 'C16_three_cold.cfg', None, big, 1500),
+        ('intended-3w', 'C16_three_warm.cfg', None, big, 1800),
+        ('intended-3w-n3', 'C16_three_warm_n3.cfg', None, big, 1500),
+        ('liveness-big', 'C16_live_big.cfg', None, 4, 900),
+    ]
+  return jobs
+
+
+def run_design(chk, tier: str, pool) -> list:
+  futs = []
+  for label, cfg, expect, workers, timeout in design_jobs(tier):
+    futs.append((label, cfg, expect, pool.submit(
+        tlc.run, 'MCSampling', cfg, name=f'c16-{cfg[:-4]}', workers=workers, timeout=timeout)))
+  return futs
+
+
+def collect_design(chk, futs):
+  out = {}
+  for label, cfg, expect, fut in futs:
+    r = fut.result()
+    chk.add_tlc(r)
+    out[cfg] = {'what': label, 'distinct': r.distinct, 'generated': r.generated, 'wall_s': round(r.wall_s, 1),
+                'violated': r.violated, 'counterexample_len': len(r.error_trace or [])}
+    if expect is None:
+      if not r.ok:
+        raise MachineryFailure(f'design level: {cfg} ({label}) must hold but TLC reports {r.violated}:\n'
+                               + r.out[-2000:])
+      chk.count('design_configs_verified')
+    else:
+      if r.ok or r.violated != expect:
+        raise MachineryFailure(f'design level: {cfg} ({label}) must exhibit a counter-example to {expect}, '
+                               f'TLC reports {r.violated}')
+      chk.count('design_counterexamples_reproduced')
+  chk.notes['design_level'] = out
+
+
+def counterexamples(chk, variant) -> List[tuple]:
+  """TLC counter-examples of the *tree's* variant of the design, for forcing onto the real threads."""
+  out = []
+  plans = []
+  if variant['goc']:
+    plans.append(('goc', 'CeColdPlain', 'OneStudyPerName', ''))
+  if variant['setup']:
+    plans.append(('setup', 'CeColdPlain', 'CountersExact', 'SingleCreator NoHalfSetup'))
+    plans.append(('setup-evo', 'CeColdEvo', 'CountersExact', 'SingleCreator NoHalfSetup'))
+  if variant['done']:
+    plans.append(('done', 'CeWarmSamePlain', 'FeedbackAtMostOnce', ''))
+    plans.append(('done-evo', 'CeWarmSameEvo', 'FeedbackAtMostOnce', ''))
+  for tag, configs, inv, cons in plans:
+    cfg = gen_cfg(f'ce_{tag}', workers=2, configs=configs, variant=variant, invariants=inv, constraints=cons)
+    r = tlc.run('MCSampling', cfg, name=f'c16-ce-{tag}', workers=2, timeout=300)
+    chk.add_tlc(r)
+    if r.ok or not r.error_trace:
+      raise MachineryFailure(f'no counter-example to {inv} for the as-coded variant {variant} ({tag})')
+    out.append((tag, inv, r.error_trace))
+  return out
+
+
+def force_counterexamples(chk, variant, seed) -> List['sampling.RunResult']:
+  runs = []
+  for tag, inv, trace in counterexamples(chk, variant):
+    cf = trace[0]['state']['cf']
+    rc = run_config_of(cf, seed)
+    r = sampling.run_forced(rc, steps_of(trace), warm=bool(cf['warm']), probes=False)
+    r.name = f'ce-{tag}'
+    chk.count('counterexamples_forced')
+    chk.sample({'forced_counterexample': tag, 'violates': inv,
+                'schedule': [f'{a}({w})' for a, w, _, _ in steps_of(trace)],
+                'status': r.status, 'final': {k: v for k, v in (r.final or {}).items() if k != 'text'}})
+    runs.append(r)
+  return runs
+
+
+def simulate_and_force(chk, variant, *, configs: str, workers: int, num: int, seed: int, tag: str,
+                       depth: int = 900) -> List['sampling.RunResult']:
+  cfg = gen_cfg(f'sim_{tag}', workers=workers, configs=configs, variant=variant,
+                constraints=' '.join(COMMIT_POINTS))
+  behaviours, r = tlc.simulate('MCSampling', cfg, num=num, depth=depth, seed=seed, name=f'c16-sim-{tag}',
+                               timeout=900)
+  chk.add_tlc(r, count_states=False)
+  runs = []
+  for i, b in enumerate(behaviours):
+    cf = b[0].state['cf']
+    if any(str(x) != 'stop' for x in b[-1].state['pc']):
+      chk.count('simulated_behaviour_truncated')
+    rc = run_config_of(cf, seed * 100003 + i)
+    res = sampling.run_forced(rc, steps_of(b), warm=bool(cf['warm']))
+    res.name = f'sim-{tag}-{i}'
+    res.meta = {'sim_tag': tag, 'index': i, 'sim_seed': seed}
+    runs.append(res)
+    chk.count('forced_steps', res.stats.get('forced_steps', 0))
+    chk.count('negative_probes', res.stats.get('probes', 0))
+    chk.count('negative_probes_blocked', res.stats.get('probes_blocked', 0))
+    if res.violation is not None:
+      # the code could not follow a behaviour of the specification
+      v = res.violation
+      report(chk, {'kind': 'forced', 'clause': v.get('clause'), 'action': v.get('action'),
+                   'event': v.get('event')},
+             {'origin': f'sim-{tag}', 'index': i, 'sim_seed': seed, 'config': dataclass_dict(rc),
+                     'divergence': v, 'crash': res.crash,
+                     'schedule': [f'{a}({w})' for a, w, _, _ in steps_of(b)][:v.get('step', 0) + 3],
+                     'events_tail': res.events[-12:]})
+    if i < 2:
+      chk.sample({'forced_behaviour': res.name, 'config': cf, 'steps': len(b) - 1,
+                  'schedule_head': [f'{a}({w})' for a, w, _, _ in steps_of(b)][:25],
+                  'probes': res.stats.get('probes'), 'status': res.status})
+  return runs
+
+
+GROUPS = {2: [[1, 2], [1, 1]], 3: [[1, 2, 3], [1, 1, 2], [1, 1, 1]], 4: [[1, 1, 2, 2], [1, 2, 3, 4], [1, 1, 1, 2]],
+          5: [[1, 1, 2, 2, 3]], 6: [[1, 1, 2, 2, 3, 3], [1, 2, 3, 4, 5, 6]], 8: [[1, 1, 1, 1, 2, 2, 3, 4],
+                                                                              [1, 2, 3, 4, 5, 6, 7, 8]]}
+OPSETS = [['done'], ['done', 'skip'], ['done', 'early'], ['done', 'done_end'],
+          ['done', 'skip', 'early', 'done_end'], ['skip', 'early']]
+
+
+def scheduled_runs(chk, *, mode: str, num: int, seed: int, crews: Sequence[int], probe_p: float,
+                   quiet: float) -> List['sampling.RunResult']:
+  rng = random.Random(f'{seed}/{mode}/configs')
+  runs = []
+  for i in range(num):
+    nw = rng.choice(list(crews))
+    rc = sampling.RunConfig(
+        nw=nw, groups=rng.choice(GROUPS[nw]), n=rng.choice([1, 2, 3, 3, 4, 5]), ops=rng.choice(OPSETS),
+        evo=rng.random() < 0.5, serial_start=rng.random() < 0.65,
+        policy=rng.choice(['random', 'pct', 'rr', 'sticky']), seed=seed * 1000003 + i, mode=mode,
+        probe_p=probe_p)
+    r = sampling.run_scheduled(rc, quiet=quiet)
+    r.name = f'{mode}-{i}'
+    runs.append(r)
+    for k in ('probes', 'probes_blocked', 'yields', 'tokenless', 'unexpected_blocks'):
+      chk.count(f'{mode}_{k}', r.stats.get(k, 0))
+    if r.status not in ('done', 'deadlock', 'mutual_exclusion'):
+      raise MachineryFailure(f'scheduler gave up on {rc}: {r.status}')
+  return runs
+
+
+def self_test_traces(base: 'sampling.RunResult') -> List[dict]:
+  """Three corrupted copies of a race-free execution: one logged field changed, one hook event removed, one
+  field of the final observation changed.  TLC must stop exactly there (the validator is not vacuous)."""
+  t = trace_of(base)
+  names = [e['e'] for e in t['ev']]
+  a = json.loads(json.dumps(t))
+  a['id'] = 'selftest-field'
+  i = names.index('propose')
+  a['ev'][i]['nprop'] += 1
+  a['expect'] = i
+  b = json.loads(json.dumps(t))
+  b['id'] = 'selftest-hook'
+  j = names.index('alloc')
+  del b['ev'][j]
+  b['expect'] = j
+  c = json.loads(json.dumps(t))
+  c['id'] = 'selftest-final'
+  c['ev'][-1]['nfb'] += 1
+  c['expect'] = len(c['ev']) - 1
+  return [a, b, c]
+
+
+def run(chk):
+  import concurrent.futures  # pylint: disable=import-outside-toplevel
+  thorough = chk.tier == 'thorough'
+  sampling.load()                      # exit 2 with a clear message when the tree has no hooks
+  chk.rule = ('executions = real pg.sample worker threads run under the deterministic scheduler (hook-level '
+              'and line-level, seeded policies) or forced along TLC behaviours of Sampling.tla; each is '
+              'validated event by event by TLC (SamplingTrace.tla); distinct = different worker '
+              'interleaving (compressed) x configuration x outcome')
+  chk.assumptions += [
+      'a Python source line is the unit of atomicity (the granularity the property names); a hook call and '
+      'the statement before it form one step',
+      'rewards are a function of the trial id; users call add_measurement before done (never abandon a trial)',
+      'add_measurement racing with a co-worker\'s done() (measurement appended to a finished trial) is outside '
+      'the statement and not compared',
+      'a worker that opens a new trial after the trial it was shown has finished may run in parallel with a '
+      'same-group worker that did the same (strong reading OnePendingPerGroup is documented, not asserted)',
+  ]
+  pool = concurrent.futures.ThreadPoolExecutor(max_workers=3 if not thorough else 2)
+  futs = run_design(chk, chk.tier, pool)
+  try:
+    variant = detect_variant()
+    chk.notes['tree_variant_as_coded'] = variant
+    quiet = 0.01 if not thorough else 0.006
+    # ---- S -> C
+    ce_runs = force_counterexamples(chk, variant, chk.seed)
+    sim_runs = simulate_and_force(chk, variant, configs='SimSmall', workers=3, num=70 if not thorough else 800,
+                                  seed=chk.seed + 1, tag='small')
+    if thorough:
+      sim_runs += simulate_and_force(chk, variant, configs='SimBig', workers=8, num=300, seed=chk.seed + 2,
+                                     tag='big', depth=2500)
+    # ---- C -> S
+    hook_runs = scheduled_runs(chk, mode='hook', num=110 if not thorough else 2000, seed=chk.seed,
+                               crews=[2, 2, 3, 3, 4, 6, 8], probe_p=1.0 if not thorough else 0.5, quiet=quiet)
+    line_runs = scheduled_runs(chk, mode='line', num=24 if not thorough else 300, seed=chk.seed,
+                               crews=[2, 2, 3] if not thorough else [2, 2, 3, 3, 4], probe_p=0.5, quiet=quiet)
+    all_runs = sim_runs + hook_runs + line_runs
+    verdicts = validate(chk, all_runs, variant, 'main')
+    # validator self-test on an execution that TLC has just accepted
+    base = next((r for r in hook_runs + sim_runs
+                 if verdicts[r.name][0] == 'ACCEPT' and r.status == 'done'
+                 and any(e['e'] == 'propose' for e in r.events)), None)
+    if base is not None:
+      extra = self_test_traces(base)
+      st = validate(chk, [], variant, 'selftest', extra=extra)
+      for t in extra:
+        v = st[t['id']]
+        chk.require(v[0] == 'STOPPED' and v[1] == t['expect'],
+                    f'validator self-test {t["id"]}: expected STOPPED at {t["expect"]}, got {v}')
+        chk.count('validator_selftests')
+    judge(chk, sim_runs, verdicts, variant, 'forced')
+    judge(chk, hook_runs, verdicts, variant, 'hook')
+    judge(chk, line_runs, verdicts, variant, 'line')
+    if ce_runs:
+      ce_verdicts = validate(chk, ce_runs, variant, 'ce', commit_points=False)
+      for r in ce_runs:
+        chk.require(ce_verdicts[r.name][0] != 'ACCEPT' or r.status != 'done',
+                    f'the forced counter-example {r.name} did not show on the code (as-coded variant {variant})')
+      judge(chk, ce_runs, ce_verdicts, variant, 'counterexample')
+    # ---- samples and vacuity guards
+    for r in (hook_runs[:2] + line_runs[:1]):
+      v = verdicts[r.name]
+      chk.sample({'execution': r.name, 'config': dataclass_dict(r.cfg), 'verdict': list(v)[:3],
+                  'events': len(r.events), 'stats': r.stats,
+                  'interleaving_head': [f"{e['w']}:{e['e']}" for e in r.events[:40]],
+                  'final': {k: x for k, x in (r.final or {}).items() if k != 'text'}})
+    if chk.violations:
+      return          # exit 1 anyway; the vacuity guards below only make sense for a passing run
+    chk.require(base is not None, 'vacuous: no accepted execution for the validator self-test')
+    seen = {}
+    for r in all_runs:
+      if verdicts[r.name][0] == 'ACCEPT':
+        for e in r.events:
+          seen[e['e']] = seen.get(e['e'], 0) + 1
+    chk.notes['events_in_accepted_traces'] = dict(sorted(seen.items()))
+    for e in ALL_EVENTS:
+      chk.require(seen.get(e, 0) > 0, f'vacuous: no accepted execution contains the event {e}')
+    c = chk.counters
+    chk.require(c.get('negative_probes_blocked', 0) > 0, 'vacuous: no negative probe in forced schedules')
+    chk.require(c.get('hook_probes_blocked', 0) > 0, 'vacuous: no negative probe in scheduled runs')
+    chk.require(c.get('forced_steps', 0) > 0, 'vacuous: no forced step')
+    chk.require(c.get('final_states_compared', 0) > 0, 'vacuous: no final state compared')
+    chk.require(c.get('line_yields', 0) > 0, 'vacuous: no line-level scheduling point')
+    chk.require(c.get('hook:ACCEPT', 0) > 0 and c.get('line:ACCEPT', 0) > 0 and c.get('forced:ACCEPT', 0) > 0,
+                'vacuous: a class of executions has no accepted trace')
+  finally:
+    collect_design(chk, futs)
+    pool.shutdown()
+  chk.exhaustive = False
+
+
+def replay(chk, path: str):
+  """Re-executes the execution recorded in a replay file (same configuration, same seed)."""
+  data = json.loads(open(path).read())
+  d = data.get('detail', {})
+  sampling.load()
+  variant = detect_variant()
+  origin = str(d.get('origin', ''))
+  if origin in ('hook', 'line'):
+    rc = sampling.RunConfig(**d['config'])
+    r = sampling.run_scheduled(rc)
+    verdicts = validate(chk, [r], variant, 'replay')
+    judge(chk, [r], verdicts, variant, origin)
+  elif origin.startswith('sim-') or origin == 'forced':
+    if origin == 'forced':
+      d = dict(d, index=d['meta']['index'], sim_seed=d['meta']['sim_seed'])
+      tag = d['meta']['sim_tag']
+    else:
+      tag = origin[4:]
+    configs, workers, depth = ('SimBig', 8, 2500) if tag == 'big' else ('SimSmall', 3, 900)
+    cfg = gen_cfg(f'sim_{tag}', workers=workers, configs=configs, variant=variant,
+                  constraints=' '.join(COMMIT_POINTS))
+    idx = int(d['index'])
+    behaviours, r = tlc.simulate('MCSampling', cfg, num=idx + 1, depth=depth, seed=int(d['sim_seed']),
+                                 name='c16-sim-replay', timeout=900)
+    chk.add_tlc(r, count_states=False)
+    b = behaviours[idx]
+    cf = b[0].state['cf']
+    res = sampling.run_forced(run_config_of(cf, d['config']['seed']), steps_of(b), warm=bool(cf['warm']))
+    if res.violation is not None:
+      v = res.violation
+      chk.violation({'kind': 'forced', 'clause': v.get('clause'), 'action': v.get('action'),
+                     'event': v.get('event')}, {'origin': origin, 'divergence': v, 'replayed': True})
+    verdicts = validate(chk, [res], variant, 'replay')
+    judge(chk, [res], verdicts, variant, 'forced')
+  elif origin == 'counterexample':
+    runs = force_counterexamples(chk, variant, chk.seed)
+    verdicts = validate(chk, runs, variant, 'replay', commit_points=False)
+    judge(chk, runs, verdicts, variant, 'counterexample')
+  else:
+    raise MachineryFailure(f'replay file {path} has no recognised origin: {origin!r}')
+  chk.states = max(chk.states, 1)
+  chk.transitions = max(chk.transitions, 1)
